@@ -21,11 +21,12 @@ class Fn:
     __slots__ = ('raw', 'path', 'kind', 'file', 'line', 'end_line', 'vis', 'reachable_pub', 'name',
                  'parent', 'impl_self', 'impl_self_adt', 'impl_trait', 'trait_of', 'doc', 'unsafe_fn',
                  'argc', 'locals', 'blocks', 'facts', '_succ', '_pred', '_dom', '_pdom', '_defs',
-                 '_reach', 'caps', '_uses')
+                 '_reach', 'caps', '_uses', 'nf')
 
     def __init__(self, raw, facts):
         self.raw = raw
         self.facts = facts
+        self.nf = False     # name-free rendering mode of fmt_* (keys must not depend on local names / temporary numbers)
         for k in ('path', 'kind', 'file', 'line', 'end_line', 'vis', 'reachable_pub', 'name', 'parent',
                   'impl_self', 'impl_self_adt', 'impl_trait', 'trait_of', 'doc', 'unsafe_fn', 'argc',
                   'locals', 'blocks', 'caps'):
@@ -170,10 +171,24 @@ class Fn:
                 yield bi, term
 
     # ---- readable expressions --------------------------------------------------------
+    def _short_type(self, local):
+        t = self.ty(local) if local < len(self.locals) else '?'
+        t = re.sub(r'\{(closure|coroutine)@[^{}]*\}', r'{\1}', t)
+        return t.replace('&mut ', '&').split('<', 1)[0].split('::')[-1]
+
     def fmt_place(self, place, depth=6):
         base = place[0]
         nm = self.lname(base)
-        if nm is None:
+        if self.nf:
+            if 1 <= base <= self.argc:
+                s = 'self' if (base == 1 and self.impl_self_adt and nm in (None, 'self')) else 'arg%d' % base
+            else:
+                sd = self.single_def(base) if depth > 0 else None
+                if sd is not None:
+                    s = self.fmt_def(sd, depth - 1)
+                else:
+                    s = 'v:' + self._short_type(base)
+        elif nm is None:
             if base != 0 and base <= self.argc:
                 s = 'arg%d' % base
             else:
